@@ -74,16 +74,47 @@ PRE_PASSES = [[], [], [["decompose", "zyz"]], [["decompose", "mckay"]], [["decom
               [["replace", "CNOT", "shared"], ["map", "perm"], ["merge"], ["map", "perm"]]]
 
 
-def apply_pre(rng, c, pre):
-    """apply a pre-pass list; returns False if a pass raised (those are C01's concern)"""
+def apply_pre(rng, c, pre, applied=None):
+    """apply a pre-pass list; returns False if a pass raised (those are C01's concern). The passes as they were run
+    (the drawn permutation in place of "perm") are appended to `applied`, from which replay_pre runs them again."""
     for p in pre:
         p = list(p)
         if p[0] == "map":
             perm = list(range(c.qubit_register_size))
             rng.shuffle(perm)
             p = ["map", perm]
+        if applied is not None:
+            applied.append(p)
         try:
             implrun.apply_pass(c, p)
         except Exception:  # noqa: BLE001
             return False
     return True
+
+
+def seen_key(case):
+    """the case as it is counted (ctx.seen): without what was added to it for the replay"""
+    return {k: v for k, v in case.items() if k != "pre_applied"}
+
+
+def replay_pre(c, case):
+    """the earlier passes of a recorded case again, with the permutations the run had drawn"""
+    import random
+
+    if "pre_applied" not in case:       # records written before the permutations were kept
+        return apply_pre(random.Random(0), c, case.get("pre", []))
+    for p in case["pre_applied"]:
+        try:
+            implrun.apply_pass(c, list(p))
+        except Exception:  # noqa: BLE001
+            return False
+    return True
+
+
+def replay_history(c, case, export):
+    """the recorded history of a case again: ["export", ["map", perm], "export"]"""
+    for h in case.get("history", []):
+        if h == "export":
+            export(c)
+        else:
+            implrun.apply_pass(c, list(h))
